@@ -8,6 +8,9 @@ open Py
 
 def noCRLF (s : Str) : Bool := s.all fun c => c != '\r' && c != '\n'
 
+/-- a header pair free of CR and LF -/
+def pairOK (p : Str × Str) : Bool := noCRLF p.1 && noCRLF p.2
+
 /-- `\d{3} .+` without CR/LF: what PEP 3333 asks of the status string -/
 def statusLineOK : Str → Bool
   | a :: b :: c :: ' ' :: r => a.isDigit && b.isDigit && c.isDigit && !r.isEmpty && noCRLF r
@@ -21,14 +24,19 @@ def lineFor (code : Nat) (line : Str) : Bool :=
    | ' ' :: r => !r.isEmpty && noCRLF r
    | _ => false)
 
-/-- a string status in the documented form `ddd reason`: three ASCII digits (no leading zero),
-one space, a non-empty reason without control characters that neither starts nor ends with
-white space (string statuses of any other shape are outside the property) -/
+/-- the reason phrase of a string status: non-empty, no control characters, neither starting
+nor ending with white space -/
+def reasonOK (r : Str) : Bool :=
+  !r.isEmpty && r.all (fun ch => decide (32 ≤ ch.toNat) && ch.toNat != 127) &&
+  !isWsChar (r.headD 'x') && !isWsChar (r.getLastD 'x')
+
+/-- a string status in the documented form `ddd reason`: three ASCII digits spelling a number
+100..999, one space, a reason phrase (string statuses of any other shape are handler garbage
+outside the property) -/
 def statusStrOK : Str → Bool
   | a :: b :: c :: ' ' :: r =>
-    a.isDigit && a != '0' && b.isDigit && c.isDigit && !r.isEmpty &&
-    r.all (fun ch => 32 ≤ ch.toNat && ch.toNat != 127) &&
-    !isWsChar (r.headD ' ') && !isWsChar (r.getLastD ' ')
+    let n := (a.toNat - 48) * 100 + (b.toNat - 48) * 10 + (c.toNat - 48)
+    decide (100 ≤ n) && decide (n ≤ 999) && natStr n == [a, b, c] && reasonOK r
   | _ => false
 
 def StatusArg.ok : StatusArg → Bool
